@@ -111,10 +111,27 @@ def _cv(a):
     return a.args[0] if isinstance(a, Node) else a
 
 
+def _const_ite(a):
+    return isinstance(a, Node) and a.op == "ite" and a.args[1].op == "const" and a.args[2].op == "const"
+
+
 def mk(op, args, lo, hi):
     """build an int node with constant folding"""
     if op in _FOLD and _all_const(args):
         return const(_FOLD[op](*[_cv(a) for a in args]))
+    if op in _FOLD and len(args) <= 2:
+        # lift an operation over ite(c, const, const) when the other operand is constant
+        ites = [i for i, a in enumerate(args) if _const_ite(a)]
+        if len(ites) == 1 and all((not isinstance(a, Node)) or a.op == "const" for i, a in enumerate(args) if i != ites[0]):
+            k = ites[0]
+            it = args[k]
+            va = list(args)
+            vb = list(args)
+            va[k] = it.args[1]
+            vb[k] = it.args[2]
+            x = const(_FOLD[op](*[_cv(a) for a in va]))
+            y = const(_FOLD[op](*[_cv(a) for a in vb]))
+            return n_ite(it.args[0], x, y)
     if lo == hi:
         return const(lo)
     return mknode(op, args, lo, hi)
@@ -556,6 +573,13 @@ def low(n, k):
     return r
 
 
+def _contiguous(m):
+    """(lo, hi) when m == 2^hi - 2^lo (a run of ones), else None"""
+    lo_ = (m & -m).bit_length() - 1
+    hi_ = m.bit_length()
+    return (lo_, hi_) if m == (1 << hi_) - (1 << lo_) else None
+
+
 def lowi(n):
     """z3 Int term equal to value(n)"""
     r = n._int
@@ -593,6 +617,10 @@ def lowi(n):
     elif op in ("or", "xor", "add") and a[0].lo >= 0 and a[1].lo >= 0 and \
             nz(a[0], max(a[0].U, a[1].U)) & nz(a[1], max(a[0].U, a[1].U)) == 0:
         r = lowi(a[0]) + lowi(a[1])
+    elif op == "and" and is_const(a[1]) and a[1].args[0] > 0 and a[0].lo >= 0 and _contiguous(a[1].args[0]) is not None:
+        # mask of contiguous ones, bits [lo, hi): ((x div 2^lo) mod 2^(hi-lo)) * 2^lo
+        lo_, hi_ = _contiguous(a[1].args[0])
+        r = ((lowi(a[0]) / z3.IntVal(1 << lo_)) % z3.IntVal(1 << (hi_ - lo_))) * (1 << lo_)
     elif op in ("and", "or", "xor") and a[0].lo >= 0 and a[1].lo >= 0:
         # bitwise operation on non-negative operands as an uninterpreted function (sound over-approximation in LIA mode)
         key = ("int", "bit_" + op, 2, 0)
@@ -1683,6 +1711,11 @@ class SBytes:
     def _ltnode(self, a, b, strict):
         """lexicographic a < b (or <=) over item lists"""
         # result = OR_i (prefix equal ∧ a_i < b_i)  [∨ (a is proper prefix of b)]
+        if len(a) == len(b) and len(a) >= 2:
+            # equal lengths: lexicographic order of the bytes is the order of the big-endian integers
+            ca = n_cat([lift(i) for i in a])
+            cb = n_cat([lift(i) for i in b])
+            return b_cmp("lt" if strict else "le", ca, cb)
         n = min(len(a), len(b))
         terms = []
         prefix = TRUE
